@@ -124,13 +124,45 @@ def run(ctx):
     stores = [s for s in iter_own(pk) if isinstance(s, ast.Assign) and
               isinstance(s.targets[0], ast.Subscript) and unparse(s.targets[0].value) == 'result_keyvals']
     valvar = unparse(stores[0].value) if stores else 'value_nl'
+    # names holding `result_keyvals.get(key[, None])`
+    getvars = {unparse(x.targets[0]) for x in iter_own(pk) if isinstance(x, ast.Assign)
+               and isinstance(x.value, ast.Call) and call_name(x.value) == 'get'
+               and call_recv(x.value) is not None and unparse(call_recv(x.value)) == 'result_keyvals'}
+
+    def _repeat_fact(t, pol):
+        tx = unparse(t)
+        if pol and 'in result_keyvals' in tx and 'not in' not in tx:
+            return 'membership'
+        if (not pol) and 'not in result_keyvals' in tx:
+            return 'membership'
+        for g in getvars:
+            if (pol and tx == g + ' is not None') or ((not pol) and tx == g + ' is None'):
+                return 'membership'
+            if (pol and tx == g) or ((not pol) and tx == 'not ' + g):
+                return 'truthiness:' + g
+        return None
+    # the repeated-key dispatch is entered by a presence test, not by the truth value of what is stored
+    disp = [c_ for c_ in iter_own(pk) if isinstance(c_, ast.Compare)
+            and unparse(c_.left) == 'repeated_key_aggregate_action']
+    if disp:
+        kinds = [k_ for k_ in (_repeat_fact(t, pol) for t, pol in atomic_facts(disp[0])) if k_]
+        if not kinds:
+            ctx.unknown('R18c', m, disp[0], 'guard of the repeated-key dispatch not recognised',
+                        construct='keyval: repeated-key test')
+        else:
+            bad = [k_ for k_ in kinds if k_.startswith('truthiness')]
+            ctx.decide('R18c', not bad, m, disp[0], 'a key counts as repeated when it is present in the result',
+                       'a key counts as repeated only when the value stored for it is truthy (%s): an '
+                       'empty value (k={}) is an empty, falsy LatexNodeList, so a second k=... is treated '
+                       'as new -- "first" returns the later value, "error" does not raise, a custom policy '
+                       'is not called' % (bad[0].split(':')[1] if bad else ''), construct='keyval: repeated-key test')
     for s in [x for x in iter_own(pk) if isinstance(x, ast.Assign) and unparse(x.targets[0]) == valvar]:
         facts = atomic_facts(s)
-        in_repeat = any(pol and 'in result_keyvals' in unparse(t) for t, pol in facts)
+        in_repeat = any(_repeat_fact(t, pol) for t, pol in facts)
         if not in_repeat:
             continue
         v = s.value
-        kind = _value_kind(v)
+        kind = _value_kind(v, getvars)
         ctx.decide('R18c', kind in ('nodelist', 'callable'), m, s,
                    'stores a node list (%s)' % kind,
                    'the repeated-key branch stores %s, a %s, where the other branches store a '
@@ -244,7 +276,9 @@ def run(ctx):
         'the parts reproduces the source) is a value-level statement and is not decided.')
 
 
-def _value_kind(v):
+def _value_kind(v, getvars=()):
+    if isinstance(v, ast.Name) and v.id in getvars:
+        return 'nodelist'      # what result_keyvals.get() returned: a stored value
     if isinstance(v, ast.Call) and call_name(v) in ('make_nodelist', 'LatexNodeList'):
         return 'nodelist'
     if isinstance(v, ast.Call) and unparse(v.func) == 'repeated_key_aggregate_action':
